@@ -229,7 +229,21 @@ def py_str(v):
     """str() of a value for the oracle: an undefined marker inside (or the marker itself) cannot be printed"""
     if has_undef(v):
         raise Stop("undefined")
-    return v if isinstance(v, str) else repr(v)
+    if isinstance(v, str):
+        return v
+    if not repr_exact(v):
+        raise Stop("off")       # a string with quotes / backslashes (a joined repr) printed inside a container: the model's repr is not exact there
+    return repr(v)
+
+
+def repr_exact(v):
+    if isinstance(v, str):
+        return v.isprintable() and not set(v) & set("'\"\\")
+    if isinstance(v, (list, tuple)):
+        return all(repr_exact(x) for x in v)
+    if isinstance(v, dict):
+        return all(repr_exact(x) for x in v.values())
+    return True
 
 
 def py_consume(k, a, v):
@@ -827,9 +841,11 @@ def fill_hole_c(e, leaf):
     return e
 
 
-def in_fragment(scope, e):
+def in_fragment(scope, e, printed=True):
     try:
-        py_expr(scope, e)
+        v = py_expr(scope, e)
+        if printed:
+            py_str(v)
     except Stop as st:
         return st.kind != "off"
     return True
@@ -859,7 +875,7 @@ def gen_cexpr_cases(rng):
         o = fill_hole_c(c_skeleton(rng, scope, 1, [], True), e_leaf(rng, scope))
         other = o if in_fragment(scope, o) else other
     exprs = [(t, fill_hole_c(skel, leaf), inj) for t, leaf, inj in twins]
-    if not all(in_fragment(scope, e) for _, e, _ in exprs):
+    if not all(in_fragment(scope, e, form != "native") for _, e, _ in exprs):
         return []                                    # a consumer leaves the fragment for one of the twins
     out = []
     for twin, e, inj in exprs:
@@ -2089,7 +2105,7 @@ def run(ck: core.Check):
     ck.assumptions = [
         "Jinja2 parses the printed fragment as the structure it was printed from (the driver re-prints the structure and compares it with the stripped cell; evaluation is compared on every case)",
         "NativeEnvironment literal_eval()s string results ('12' → 12): string values that are Python literals are kept out of native cases",
-        "repr() of strings inside containers: generators use quote/backslash-free strings there",
+        "repr() of strings inside containers: generators use quote/backslash-free strings there (consumer cases whose joined text with quotes would be re-printed inside a container are discarded by the generator's own oracle)",
     ]
     ck.partial_gap = [
         "delivered_no_blank over whole sheets (no instantiated cell of a delivered row contains an undefined reference) is checked on the real compiler for every cell of the explored sheets, not proved: there is no Lean model of the templated row/sheet parser; the cell-level theorems are proved for all templates and contexts of the fragment",
